@@ -273,7 +273,7 @@ func c18Monitor(c *lib.Ctx, cs c18Case, count bool) []lib.Violation {
 	return vs
 }
 
-var c18AcctOps = []string{"inc", "add3", "obs0.125", "obs0.25", "obs1", "obs7", "obs20000", "set2.5", "reset"}
+var c18AcctOps = []string{"inc", "add3", "obs0.125", "obs0.0004", "obs1.005", "obs7", "obs20000", "set2.5", "reset"}
 
 func c18Accounting(c *lib.Ctx, cs c18Case) []lib.Violation {
 	col := metrics.NewCollector()
@@ -443,7 +443,7 @@ func c18Run(c *lib.Ctx) {
 func init() {
 	lib.Register(&lib.Check{
 		ID: "C18", Level: "model_checking",
-		Rule:      "(identity) names {m, 'm:a=1', ''} x all 28 tag maps with <=3 tags over keys {a,b,c} and values {1,2} (plus nil and empty) x {counter, gauge, histogram, timer}: the metric is requested twice under EVERY assignment of iteration orders to the tag-map range points of the key computation (full DFS over the choice tree, all n! orders per point); both requests must return the same pointer, both events must land in it, GetAllMetrics must list one series. (monitor) every sequence of <=3 (quick) / <=4 (thorough) calls of RecordDatabaseOperation(load ok / load failed / save ok) and RecordSearchOperation(hit / miss) under every order assignment (cap 3000 schedules per sequence, reported): per-identity and total counts in the report equal the operations recorded, one series per identity. (accounting) every sequence of 4 (quick) / 5 (thorough) operations over {Inc, Add(3), Observe(0.125|0.25|1|7|20000), Set(2.5), Reset}: counter, histogram count / exact sum / mean, gauge, percentile monotonicity and GetAllMetrics after every step. (concurrent) the collector scenarios of the schedule explorer: two goroutines creating the same new series + a third observing and listing (S5), three goroutines incrementing one counter / gauge (S9) under every interleaving with <=2 preemptions, monitored searches (S4) with <=1: same pointer, no lost increment, one series. states = cases; transitions = executions under distinct order assignments / schedules",
+		Rule:      "(identity) names {m, 'm:a=1', ''} x all 28 tag maps with <=3 tags over keys {a,b,c} and values {1,2} (plus nil and empty) x {counter, gauge, histogram, timer}: the metric is requested twice under EVERY assignment of iteration orders to the tag-map range points of the key computation (full DFS over the choice tree, all n! orders per point); both requests must return the same pointer, both events must land in it, GetAllMetrics must list one series. (monitor) every sequence of <=3 (quick) / <=4 (thorough) calls of RecordDatabaseOperation(load ok / load failed / save ok) and RecordSearchOperation(hit / miss) under every order assignment (cap 3000 schedules per sequence, reported): per-identity and total counts in the report equal the operations recorded, one series per identity. (accounting) every sequence of 4 (quick) / 5 (thorough) operations over {Inc, Add(3), Observe(0.125|0.0004|1.005|7|20000: binary fractions, values below and not a multiple of 1/1000, above the last bucket), Set(2.5), Reset}: counter, histogram count / exact sum / mean, gauge, percentile monotonicity and GetAllMetrics after every step. (concurrent) the collector scenarios of the schedule explorer: two goroutines creating the same new series + a third observing and listing (S5), three goroutines incrementing one counter / gauge (S9) under every interleaving with <=2 preemptions, monitored searches (S4) with <=1: same pointer, no lost increment, one series. states = cases; transitions = executions under distinct order assignments / schedules",
 		Assume:    []string{"only map ranges inside internal/metrics are explored here; dyadic observation values make the exact sum order-independent", "scheduling points = sync / atomic operations (build overlay shims); deeper bounds of the same scenarios run under C11"},
 		QuickSecs: 120, ThorSecs: 900, Graph: true,
 		Run: c18Run,
